@@ -1,0 +1,15 @@
+//go:build verif
+
+package header
+
+import (
+	libhead "github.com/celestiaorg/go-header"
+
+	"github.com/celestiaorg/celestia-node/header"
+)
+
+// NewServiceWithSubscriber builds a header Service that has nothing but its header Subscriber:
+// enough for Service.Subscribe, the relay that feeds blob subscriptions. Verification harness only.
+func NewServiceWithSubscriber(sub libhead.Subscriber[*header.ExtendedHeader]) *Service {
+	return &Service{sub: sub}
+}
